@@ -160,6 +160,28 @@ def impl_apply(content, cons):
         os.unlink(path)
 
 
+def impl_apply_twice(content1, content2, cons):
+    """ ONE constraint object applied to a path, then again after the path was rewritten """
+    core.import_searchkit()
+    c = make_constraint(cons)
+    with tempfile.NamedTemporaryFile(prefix='vh-', delete=False) as f:
+        path = f.name
+    out = []
+    try:
+        for content in (content1, content2):
+            with open(path, 'wb') as f:
+                f.write(content)
+            with open(path, 'rb') as fd:
+                try:
+                    ret = c.apply_to_file(fd)
+                    out.append({'pos': fd.tell(), 'ret': ret})
+                except Exception as ex:  # pylint: disable=broad-except
+                    out.append({'err': classify(ex)})
+        return out
+    finally:
+        os.unlink(path)
+
+
 # --------------------------------------------------------------------------
 # generators
 # --------------------------------------------------------------------------
